@@ -347,13 +347,20 @@ func (h *histRunner) run(hist [][]interface{}) {
 			}
 			sent := append([]byte{}, buf...)
 			ec, pan := "", ""
+			// a quarter of the loads go through proto.Unmarshal(buf, st), which calls
+			// st.Reset() and then st.Unmarshal(buf)
+			viaProto := h.r.Intn(4) == 0
 			stages := recordStages(func() {
 				defer func() {
 					if r := recover(); r != nil {
 						pan = fmt.Sprint(r)
 					}
 				}()
-				ec = errClass(st.Unmarshal(buf))
+				if viaProto {
+					ec = errClass(proto.Unmarshal(buf, st))
+				} else {
+					ec = errClass(st.Unmarshal(buf))
+				}
 			})
 			modified := string(sent) != string(buf)
 			effVer := p.Ver
@@ -361,7 +368,7 @@ func (h *histRunner) run(hist [][]interface{}) {
 				effVer = headerVersion(buf)
 			}
 			h.t.Emit(Ev{"ev": "unm", "sid": p.SID, "cut": cut, "ver": ints(effVer), "total": len(p.Bytes), "err": ec, "pan": pan,
-				"bufmodified": b2i(modified), "kind": kind, "stages": stages})
+				"bufmodified": b2i(modified), "kind": kind, "stages": stages, "viaproto": b2i(viaProto)})
 			if ec == "" && pan == "" {
 				src = p
 				if cut >= 0 {
@@ -396,7 +403,7 @@ func (h *histRunner) attempt(pre *poolStream, p *poolStream, cut int, ver string
 	h.t.Emit(Ev{"ev": "inst"})
 	if pre != nil {
 		ec := errClass(st.Unmarshal(append([]byte{}, pre.Bytes...)))
-		h.t.Emit(Ev{"ev": "unm", "sid": pre.SID, "cut": -1, "ver": ints(pre.Ver), "total": len(pre.Bytes), "err": ec, "pan": "", "bufmodified": 0, "kind": "unm", "stages": []string{"skip"}})
+		h.t.Emit(Ev{"ev": "unm", "sid": pre.SID, "cut": -1, "ver": ints(pre.Ver), "total": len(pre.Bytes), "err": ec, "pan": "", "bufmodified": 0, "kind": "unm", "stages": []string{"skip"}, "viaproto": 0})
 	}
 	buf := append([]byte{}, p.Bytes...)
 	if setVer {
@@ -420,7 +427,7 @@ func (h *histRunner) attempt(pre *poolStream, p *poolStream, cut int, ver string
 		effVer = headerVersion(buf)
 	}
 	h.t.Emit(Ev{"ev": "unm", "sid": p.SID, "cut": cut, "ver": ints(effVer), "total": len(p.Bytes), "err": ec, "pan": pan,
-		"bufmodified": b2i(string(sent) != string(buf)), "kind": "attempt", "stages": stages})
+		"bufmodified": b2i(string(sent) != string(buf)), "kind": "attempt", "stages": stages, "viaproto": 0})
 	var src *poolStream
 	if ec == "" && pan == "" && cut < 0 {
 		src = p
@@ -798,20 +805,28 @@ func (hr *histReplay) handle(t *Tracer, name string, e map[string]interface{}) b
 		}
 		sent := append([]byte{}, buf...)
 		ec, pan := "", ""
+		viaProto := false
+		if vp, ok := e["viaproto"].(float64); ok && vp == 1 {
+			viaProto = true
+		}
 		stages := recordStages(func() {
 			defer func() {
 				if r := recover(); r != nil {
 					pan = fmt.Sprint(r)
 				}
 			}()
-			ec = errClass(hr.st.Unmarshal(buf))
+			if viaProto {
+				ec = errClass(proto.Unmarshal(buf, hr.st))
+			} else {
+				ec = errClass(hr.st.Unmarshal(buf))
+			}
 		})
 		effVer := p.Ver
 		if len(buf) >= 16 {
 			effVer = headerVersion(buf)
 		}
 		t.Emit(Ev{"ev": "unm", "sid": p.SID, "cut": cut, "ver": ints(effVer), "total": len(p.Bytes), "err": ec, "pan": pan,
-			"bufmodified": b2i(string(sent) != string(buf)), "kind": e["kind"], "stages": stages})
+			"bufmodified": b2i(string(sent) != string(buf)), "kind": e["kind"], "stages": stages, "viaproto": b2i(viaProto)})
 		hr.src = nil
 		if ec == "" && pan == "" && cut < 0 {
 			hr.src = p
